@@ -457,7 +457,7 @@ def run(st, tier, seed):
             for case, (r, dt) in zip(part, results):
                 res.evaluations += 1
                 nv = len(res.violations)
-                tr = judge(case, r, res, confirm_cap=cap * 4)
+                tr = judge(case, r, res, confirm_cap=cap * 3)
                 for v in res.violations[nv:]:
                     stop_sigs[v["sig"]] = stop_sigs.get(v["sig"], 0) + 1
                 key = {"st": case["st"], "eq": case["eq"], "wc": case["wc"], "opts": case["opts"]}
